@@ -323,6 +323,12 @@ bool DictCompiler::BuildPrism(const path& schema_file,
       }
       if (!p.Apply(&script)) {
         script.clear();
+      } else if (script.empty()) {
+        // an empty script would be taken for "no spelling algebra" below,
+        // and the prism built with the syllables' own names as spellings.
+        LOG(ERROR) << "spelling algebra erased every spelling in "
+                   << schema_file;
+        return false;
       }
     }
 
